@@ -184,29 +184,55 @@ theorem into_inner_safe (v : Version) (ps ls : List Bytes) (junk : Option PErr)
 example : (Dialer.onRecv ⟨.v1, [], .awaitProtocol [47, 97] true, [.header]⟩ (.msg (.protocol [47, 97]))).st.state =
     .failed .panic := by decide
 
-/-- **Message-based variant, safety half (partial).** Full statement (not proved, see the report):
-for all valid, frame-sized `main :: fallbacks`, all `sup` and every grouping `split`,
-`wPair main fallbacks sup split` is `⟨succeeded p, accepted p⟩` for the first `p ∈ main :: fallbacks`
-with `p ∈ sup`, and `⟨failed, none⟩` when there is none. Proved here, for ALL payloads (well-formed or
-not), all groupings and all states: the listener only ever accepts a name it supports, and the
+/-- **Message-based variant, safety for arbitrary payloads.** For ALL payloads (well-formed or not),
+all states and whatever the peer is: the listener only ever accepts a name it supports, and the
 dialer only ever reports success for the name it is currently proposing. -/
-theorem webrtc_agree_partial (sup : List Bytes) (payload : Bytes) (hr : Bool) (d : WDialer) :
+theorem webrtc_safe (sup : List Bytes) (payload : Bytes) (hr : Bool) (d : WDialer) :
     (∀ p m, wListen sup payload hr = .ok (.accepted p m) → p ∈ sup) ∧
     (∀ q, (wRegister d payload).2 = .ok (.succeeded q) → q = d.protocol) :=
   ⟨fun p m h => wListen_accepted sup payload hr p m h,
    fun q h => wRegisterLoop_succeeded _ d payload q h⟩
 
-/-- Non-vacuity, on the composed pair: `/a` with fallbacks `/b`, `/c` against a listener supporting
-`/c`, `/b` agrees on `/b` for every grouping of the first payload and of the first response; disjoint
-names fail on the dialer side and the listener never accepts. -/
+example : wListen [[47, 98]] (wHdr ++ wFrame (.protocol [47, 98])) false =
+      .ok (.accepted [47, 98] (wHdr ++ wFrame (.protocol [47, 98]))) ∧
+    (wRegister ⟨[47, 98], [], .waitingResponse⟩ (wHdr ++ wFrame (.protocol [47, 98]))).2 = .ok (.succeeded [47, 98]) := by
+  decide
+
+/-- **Message-based variant: agreement for every grouping.** `WebRtcDialerState::{propose,
+propose_next_fallback, register_response}` against `webrtc_listener_negotiate`, composed as
+`transport/webrtc/connection.rs` composes them (`wPair`). For every main name that is valid and at
+most `MAX_FRAME_SIZE − 23` bytes long (it travels behind the 20-byte header frame), every list of
+valid fallback names of at most `MAX_FRAME_SIZE − 3` bytes, every listener list `sup` and EVERY
+grouping of the messages into payloads that can occur (`split` bit 0: header and first proposal
+travel as one payload or as two; bit 1: the listener's header + answer travel as one payload or as
+two; every later message is alone in flight), the pair ends with the dialer reporting `Succeeded(p)`
+and the listener having accepted `p`, where `p` is the first name of `main :: fallbacks` that the
+listener supports, or — when there is none — with the dialer failing (`propose_next_fallback`
+returned `None`) and the listener never having accepted anything.
+
+The order in which the code tries the names is `main` first, then the fallbacks **in the order
+given to `propose`** (`propose` reverses the vector, `propose_next_fallback` pops from its end). -/
+theorem webrtc_agree (main : Bytes) (fallbacks sup : List Bytes) (split : Nat)
+    (hmain : WProposableMain main) (hfb : ∀ f ∈ fallbacks, WProposable f) :
+    wPair main fallbacks sup split =
+      match firstCommon (main :: fallbacks) sup with
+      | some p => ⟨.succeeded p, some (.ok p)⟩
+      | none => ⟨.failed, none⟩ := by
+  rw [wPair_agree main fallbacks sup split hmain hfb]
+  cases firstCommon (main :: fallbacks) sup <;> rfl
+
+/-- Non-vacuity: `/a` with fallbacks `/b`, `/c` against a listener supporting `/c`, `/b` agrees on
+`/b` (the dialer's order decides, not the listener's) for every grouping; disjoint names fail on the
+dialer side and the listener never accepts. The length bound is exact: one byte more and `propose`
+itself fails. -/
 example :
+    WProposableMain [47, 97] ∧ (∀ f ∈ [[47, 98], [47, 99]], WProposable f) ∧
     (∀ split ∈ [0, 1, 2, 3], wPair [47, 97] [[47, 98], [47, 99]] [[47, 99], [47, 98]] split =
       ⟨.succeeded [47, 98], some (.ok [47, 98])⟩) ∧
+    firstCommon [[47, 97], [47, 98], [47, 99]] [[47, 99], [47, 98]] = some [47, 98] ∧
     wPair [47, 97] [[47, 98]] [[47, 99]] 3 = ⟨.failed, none⟩ ∧
-    wListen [[47, 98]] [19, 47, 109, 117, 108, 116, 105, 115, 116, 114, 101, 97, 109, 47, 49, 46, 48, 46, 48, 10,
-      3, 47, 98, 10] false = .ok (.accepted [47, 98] [19, 47, 109, 117, 108, 116, 105, 115, 116, 114, 101, 97, 109,
-      47, 49, 46, 48, 46, 48, 10, 3, 47, 98, 10]) := by
-  decide
+    (∀ p : Bytes, maxFrameSize < p.length + 23 → webrtcEncode (.protocol p) true = none) := by
+  refine ⟨by decide, by decide, by decide, by decide, by decide, webrtcEncode_proto_true_too_long⟩
 
 /-- **A fallback name is reported as the main protocol.** If the negotiated name is a fallback
 name of `main`, the substream is reported for `main` with `fallback = Some(negotiated)`; a main name
@@ -243,6 +269,8 @@ open Litep2pVerif.Props.C03 in
 open Litep2pVerif.Props.C03 in
 #print axioms into_inner_safe
 open Litep2pVerif.Props.C03 in
-#print axioms webrtc_agree_partial
+#print axioms webrtc_safe
+open Litep2pVerif.Props.C03 in
+#print axioms webrtc_agree
 open Litep2pVerif.Props.C03 in
 #print axioms fallback_reported_as_main
